@@ -213,6 +213,193 @@ def explore_hard(task):
             "inconclusive": (["%s: %d unknown feasibility answers" % (tag, ex.n_unknown)] if ex.n_unknown else [])}
 
 
+# ------------------------------------------------------------------------------------------------ Coulomb bound (C)
+COULOMB_C = os.path.join(harness.REPO, "jellyfysh/potential/inverse_power_coulomb_bounding_potential/"
+                                       "inverse_power_coulomb_bounding_potential.c")
+
+
+def explore_coulomb(task):
+    """displacement() of the C file through csym (mode R): the returned distance is where the cumulative uphill energy
+    of the periodically repeated nearest-image 1/r potential equals the budget."""
+    sign, laps, via_python = task
+    queries = []
+    npaths = 0
+    info = {"part": "coulomb", "sign": sign, "laps": laps, "replay": "coulomb"}
+    tag = "coulomb/%s/laps%d%s" % (sign, laps, "/py" if via_python else "")
+    interp = csym.Interp(COULOMB_C, max_loop=16)
+    interp.math.fork_floor = True
+    interp.math.floor_candidates = (laps,)
+
+    def run(ex):
+        c, sx, sy, sz, dU, Ls = (ex.real(n) for n in ("c", "sx", "sy", "sz", "dU", "L"))
+        ex.axiom(z3.And(Ls.t > 0, dU.t > 0))
+        ex.axiom(c.t > 0 if sign == "repulsive" else c.t < 0)
+        half = Ls.t / 2
+        ex.axiom(z3.And(sx.t >= -half, sx.t <= half, sy.t >= -half, sy.t <= half, sz.t >= -half, sz.t <= half))
+        rho2 = sy.t * sy.t + sz.t * sz.t
+        ex.axiom(rho2 > 0)        # exactly aligned separations divide by zero in C (IEEE inf): outside the R model
+        pt = ex.pow_theory()
+
+        def U(w):           # reference energy at longitudinal separation w (|w| <= L/2), same root theory
+            return c.t / pt.apply(w * w + rho2, F(1, 2))
+        Uz, Uh = U(z3.RealVal(0)), U(half)
+        A = Uz - Uh if sign == "repulsive" else Uh - Uz
+        ex.axiom(z3.And(laps * A <= dU.t, dU.t < (laps + 1) * A))       # bound: number of whole-box laps
+        D = interp.call("displacement", c, sx, sy, sz, dU, Ls)
+        Dt = L(D)
+        # unwrapped longitudinal coordinate after distance D: lap index k (forked over its feasible values) and
+        # wrapped value w in (-L/2, L/2]
+        t_end = sx.t - Dt
+        k = -ex.choose(laps + 4)
+        w = t_end - k * Ls.t
+        ex.assume(z3.And(w > -half, w <= half))
+        start_wrapped = ex.decide(sx.t == -half)     # sx = -L/2 is the image +L/2 of the previous lap
+        k0 = -1 if start_wrapped else 0
+        w0 = half if start_wrapped else sx.t
+        if sign == "repulsive":
+            gain_end = (U(w) - Uh) if ex.decide(w > 0) else A
+            gain_start = (U(w0) - Uh) if ex.decide(w0 > 0) else A
+            uphill_point = w >= 0
+        else:
+            gain_end = (U(w) - Uz) if ex.decide(w < 0) else z3.RealVal(0)
+            gain_start = (U(w0) - Uz) if ex.decide(w0 < 0) else z3.RealVal(0)
+            uphill_point = z3.Or(w <= 0, w == half)
+        H_end = -k * A + gain_end
+        H_start = -k0 * A + gain_start
+        ex.oblige("distance-not-negative", Dt >= 0)
+        ex.oblige("accumulated-periodic-uphill-energy-equals-budget", H_end - H_start == dU.t)
+        ex.oblige("event-on-an-uphill-point(first-time)", uphill_point)
+        return "finite"
+
+    ex = symx.Explorer(feas_timeout_ms=20000, pow_uf=True, witness=True)
+    t0 = time.time()
+    for path in ex.paths(run):
+        npaths += 1
+        if path.exception is not None:
+            queries.append(solve.Query("%s/p%d/no-arithmetic-failure(%s: %s)" % (tag, npaths,
+                                                                                 type(path.exception).__name__,
+                                                                                 str(path.exception)[:50]),
+                                       solve.to_smt2(path.hyp()), expect="unsat", timeout_s=180,
+                                       info=dict(info, exception=repr(path.exception)),
+                                       group="coulomb/no-arithmetic-failure"))
+            continue
+        queries += harness.path_queries(path, prefix="%s/p%d/" % (tag, npaths), group_prefix="coulomb/",
+                                        timeout_s=COULOMB_TIMEOUT[0], extra_info=info, twin_group=tag,
+                                        solver="portfolio")
+    for q in queries:
+        if q.expect == "sat":
+            q.timeout_s = 40
+            q.info["twin_lenient_unknown"] = True
+    # undecided feasibility answers only keep extra paths here (their obligations carry the full hypotheses; a path
+    # that is in fact infeasible shows up as an unsat twin, tolerated per instance)
+    return {"paths": npaths, "queries": queries, "part": "coulomb", "explore_s": time.time() - t0,
+            "undecided_feasibility": ex.n_unknown}
+
+
+def native_coulomb_lib():
+    """inverse_power_coulomb_bounding_potential.c compiled from the current source (ctypes, scratch dir)."""
+    import ctypes
+    import subprocess
+    d = NATIVE["dir"]
+    so = os.path.join(d, "coulomb_bound.so")
+    if not os.path.exists(so):
+        subprocess.run(["gcc", "-O2", "-shared", "-fPIC", "-I", os.path.dirname(COULOMB_C), COULOMB_C, "-o", so, "-lm"],
+                       check=True, capture_output=True)
+    lib = ctypes.CDLL(so)
+    lib.displacement.restype = ctypes.c_double
+    lib.displacement.argtypes = [ctypes.c_double] * 6
+    lib.derivative.restype = ctypes.c_double
+    lib.derivative.argtypes = [ctypes.c_double] * 4
+    return lib
+
+
+NATIVE = {"dir": None}
+COULOMB_TIMEOUT = [180]
+
+
+def replay_coulomb(model, q):
+    lib = native_coulomb_lib()
+    m = conv_model(model, ["c", "sx", "sy", "sz", "dU", "L"], float)
+    D = lib.displacement(m["c"], m["sx"], m["sy"], m["sz"], m["dU"], m["L"])
+    # reference by numerical quadrature of the uphill part of the periodic nearest-image potential
+    c, sx, rho2, Ls = m["c"], m["sx"], m["sy"] ** 2 + m["sz"] ** 2, m["L"]
+
+    def U(t):
+        w = (t + Ls / 2) % Ls - Ls / 2
+        return c / math.sqrt(w * w + rho2)
+    n = 20000
+    acc, prev = 0.0, U(sx)
+    bad = None
+    if not (D >= 0 and math.isfinite(D)):
+        bad = "returned %r" % D
+    else:
+        for i in range(1, n + 1):
+            cur_u = U(sx - D * i / n)
+            if cur_u > prev:
+                acc += cur_u - prev
+            prev = cur_u
+        if abs(acc - m["dU"]) > 2e-3 * max(m["dU"], abs(U(sx))) + 1e-9:
+            bad = "cumulative uphill energy along the returned distance %r is %r, budget %r" % (D, acc, m["dU"])
+    if bad:
+        return {"reproduced": True, "what": "coulomb bound displacement(c=%r, s=(%r,%r,%r), dU=%r, L=%r): %s"
+                                            % (m["c"], m["sx"], m["sy"], m["sz"], m["dU"], m["L"], bad),
+                "data": {"kind": "coulomb", "info": _plain(q.info), "model": {k: str(v) for k, v in model.items()}}}
+    return {"reproduced": False, "what": "native C displacement %r accumulates %r for budget %r" % (D, acc, m["dU"])}
+
+
+# ------------------------------------------------------------------------------------------------ cell bounding
+def explore_cell_bounding(task):
+    with_charge = task
+    from jellyfysh.potential.cell_bounding_potential import CellBoundingPotential
+    queries = []
+    npaths = 0
+    info = {"part": "cell_bounding", "with_charge": with_charge, "replay": None}
+    tag = "cellbound/%s" % ("charge" if with_charge else "nocharge")
+
+    def run(ex):
+        up, lo, dU, v, cf = (ex.real(n) for n in ("upper", "lower", "dU", "v", "charge_factor"))
+        ex.axiom(z3.And(dU.t > 0, v.t > 0))
+
+        class Est(object):
+            potential = None
+
+            def charge_correction_factor(self, a, b=None):
+                return cf
+        pot = CellBoundingPotential.__new__(CellBoundingPotential)
+        pot._estimator = Est()
+        pot._prefactor = 1.0
+        cell = "relative-cell"
+        if with_charge:
+            pot._derivative_bounds = ({cell: [up, up]}, {cell: [lo, lo]})
+            t = pot.displacement([0.0, v], cell, 1.0, 1.0, dU)
+            rate = z3.If(cf.t > 0, up.t * cf.t, lo.t * cf.t)
+        else:
+            pot._derivative_bounds = {cell: [up, up]}
+            pot.standard_velocity_displacement = pot._standard_velocity_displacement_without_charges
+            t = pot.displacement([0.0, v], cell, 1.0, 1.0, dU)
+            rate = up.t
+        ex.oblige("stored-rate-is-bound-times-charge-factor", L(pot._bounding_event_rate) == rate)
+        if is_inf(t):
+            ex.oblige("infinite-exactly-when-rate-not-positive", rate <= 0)
+        else:
+            ex.oblige("finite-only-when-rate-positive", rate > 0)
+            ex.oblige("distance-is-budget-over-rate", L(t) * v.t * rate == dU.t)
+        return None
+
+    ex = symx.Explorer(witness=True)
+    for path in ex.paths(run):
+        npaths += 1
+        if path.exception is not None:
+            queries.append(solve.Query("%s/p%d/no-arithmetic-failure(%s)" % (tag, npaths, type(path.exception).__name__),
+                                       solve.to_smt2(path.hyp()), expect="unsat",
+                                       info=dict(info, exception=repr(path.exception)),
+                                       group="cellbound/no-arithmetic-failure"))
+            continue
+        queries += harness.path_queries(path, prefix="%s/p%d/" % (tag, npaths), group_prefix="cellbound/",
+                                        extra_info=info)
+    return {"paths": npaths, "queries": queries, "part": "cell_bounding"}
+
+
 # ------------------------------------------------------------------------------------------------ native replay
 def conv_model(model, names, conv):
     return {n: conv(F(model.get(n, 0))) for n in names}
@@ -412,6 +599,8 @@ def main():
              "negative radicand raises ValueError exactly like math.sqrt)")
     chk.register_replay("ipp", replay_ipp)
     chk.register_replay("hard", replay_hard)
+    chk.register_replay("coulomb", replay_coulomb)
+    NATIVE["dir"] = chk.scratch
     translator_validation(chk)
     if chk.want("inverse_power"):
         tasks = [(p, dim, dr, sg) for p in powers for dim in dims for dr in range(dim)
@@ -422,6 +611,22 @@ def main():
     if chk.want("hard"):
         chk.explore_parallel([(k, d) for k in ("sphere", "dipole") for d in ((2, 3) if chk.thorough else (2,))],
                              explore_hard)
+    if chk.want("coulomb"):
+        chk.encoded("jellyfysh/potential/inverse_power_coulomb_bounding_potential/"
+                    "inverse_power_coulomb_bounding_potential.c: displacement, potential (pycparser AST, csym)")
+        chk.bound(coulomb_laps="0..%d whole-box laps (floor(dU / lap energy) fixed per instance)" % (2 if chk.thorough else 0),
+                  coulomb_separation="every separation in the minimum-image cube with non-zero transverse part, every "
+                                     "box length, both signs of the charge product")
+        chk.outside_claim("exactly aligned separations in the C bounding potential (IEEE division by zero)",
+                          "more whole-box laps than the bound")
+        COULOMB_TIMEOUT[0] = 900 if chk.thorough else 240
+        chk.explore_parallel([(sg, n, False) for sg in ("repulsive", "attractive")
+                              for n in range(0, 3 if chk.thorough else 1)], explore_coulomb)
+    if chk.want("cell_bounding"):
+        from jellyfysh.potential.cell_bounding_potential import CellBoundingPotential
+        chk.encoded(CellBoundingPotential.standard_velocity_displacement,
+                    CellBoundingPotential._standard_velocity_displacement_without_charges)
+        chk.explore_parallel([True, False], explore_cell_bounding)
     chk.finish()
 
 
@@ -433,7 +638,8 @@ def do_replay(chk):
     class Q:
         info = d["info"]
     model = {k: F(v) for k, v in d["model"].items() if _is_num(v)}
-    out = {"ipp": replay_ipp, "hard": replay_hard}[d["kind"]](model, Q)
+    NATIVE["dir"] = chk.scratch
+    out = {"ipp": replay_ipp, "hard": replay_hard, "coulomb": replay_coulomb}[d["kind"]](model, Q)
     print("replay:", out["what"])
     sys.exit(1 if out["reproduced"] else 0)
 
